@@ -425,3 +425,68 @@ def standard_prelude(chk, with_coqchk=False):
         chk.proof_broken(f"Properties/{chk.pid}.v", ob.error)
     chk.proofs_ok = ob.ok and br.export_ok and br.runner_ok and not br.forbidden
     return br, ob
+
+
+# ---------------------------------------------------------------------------------------------------------------------------------
+# environment invariance: the same seeded cases in child interpreters started in different process environments
+ENVIRONMENTS = {
+    "default": {},
+    "python -O (PYTHONOPTIMIZE=1)": {"PYTHONOPTIMIZE": "1"},
+    "python -OO (PYTHONOPTIMIZE=2)": {"PYTHONOPTIMIZE": "2"},
+    "warnings raised as errors": {"VERIF_WARNINGS_AS_ERRORS": "1"},
+    "TZ=XXX-9": {"TZ": "XXX-9"},
+    "TZ=XXX+11, LC_ALL=tr_TR.UTF-8": {"TZ": "XXX+11", "LC_ALL": "tr_TR.UTF-8", "LANG": "tr_TR.UTF-8"},
+    "private CA bundle (SSL_CERT_FILE / SSL_CERT_DIR)": {"SSL_CERT_FILE": "@forged_root_bundle", "SSL_CERT_DIR": "@forged_root_dir"},
+}
+
+
+def env_invariance(chk, group):
+    """Runs harness.envprobe <group> once per environment (in parallel) and reports every case whose outcome differs from the default run."""
+    import subprocess
+    repo = os.environ.get("VERIF_REPO", "/repo")
+    bundle_dir = os.path.join(BUILD, "ca_bundle")
+    os.makedirs(bundle_dir, exist_ok=True)
+    bundle = os.path.join(bundle_dir, "forged_roots.pem")
+    try:
+        from harness import regsim
+        pems = b"".join(regsim.PKI(t, root_cn=cn).root_pem() for t, cn in (("A", "Forged Root"), ("Z", "Unrelated Root")))
+        with open(bundle + f".{os.getpid()}", "wb") as f:
+            f.write(pems)
+        os.replace(bundle + f".{os.getpid()}", bundle)
+    except Exception:
+        pass
+    procs = {}
+    for name, extra in ENVIRONMENTS.items():
+        env = dict(os.environ)
+        env.update({k: (bundle if v == "@forged_root_bundle" else bundle_dir if v == "@forged_root_dir" else v) for k, v in extra.items()})
+        env["VERIF_REPO"] = repo
+        env["PYTHONPATH"] = repo
+        env["PYTHONHASHSEED"] = "0"
+        procs[name] = subprocess.Popen([sys.executable, "-m", "harness.envprobe", group], cwd=ROOT, env=env, stdout=subprocess.PIPE, stderr=subprocess.PIPE)
+    outs = {}
+    for name, p in procs.items():
+        o, e = p.communicate(timeout=900)
+        outs[name] = (p.returncode, o.decode("utf-8", "replace").splitlines(), e.decode("utf-8", "replace")[-800:])
+    rc0, base, err0 = outs["default"]
+    if rc0 != 0 or not base:
+        chk.diverge("harness.envprobe (default environment)", f"probe {group} did not complete: rc={rc0} {err0[-300:]}", {"group": group})
+        return
+    basemap = dict(l.split("\t", 1) for l in base if "\t" in l)
+    n = 0
+    for name, (rc, lines, err) in outs.items():
+        if name == "default":
+            continue
+        if rc != 0:
+            chk.violation(f"in the environment '{name}' the library could not even run the {group} cases: {err[-200:]}", f"environment {group} {name} crash",
+                          {"environment": ENVIRONMENTS[name], "group": group, "stderr": err})
+            continue
+        m = dict(l.split("\t", 1) for l in lines if "\t" in l)
+        for label, out in basemap.items():
+            chk.evals += 1
+            n += 1
+            if m.get(label) != out:
+                chk.violation(f"outcome depends on the process environment: case '{label}' gives '{out[:60]}' by default but '{str(m.get(label))[:60]}' under {name}",
+                              f"environment {group} {name.split(' (')[0]} {label.split(' ')[0]} {label.split(' ')[1] if ' ' in label else ''}",
+                              {"environment": ENVIRONMENTS[name], "group": group, "case": label, "default_outcome": out, "outcome": m.get(label)})
+    chk.notes.append({"environment_invariance": {"group": group, "environments": list(ENVIRONMENTS), "cases": len(basemap), "comparisons": n}})
+    chk.count(f"environment-invariance:{group}", n)
